@@ -25,7 +25,7 @@ Import ListNotations.
 
 IMPORTS = ("Scalar Outcome Support Poly Spline Ops Forms Generator Interp Spec Spec_Ops Spec_Gen "
            "Proofs_Support Proofs_Scalar Proofs_Poly Proofs_Binom Proofs_Eval Proofs_Outcome Proofs_Spline "
-           "Proofs_Forms Proofs_Ops Proofs_Forms2 Proofs_Interp Proofs_Pred Proofs_Gen Instances Instances_Ext Proofs_Valid Solver Pool Quad Proofs_Pool Proofs_Quad")
+           "Proofs_Forms Proofs_Ops Proofs_Forms2 Proofs_Interp Proofs_Pred Proofs_Gen Instances Instances_Ext Proofs_Valid Solver Pool Quad Proofs_Pool Proofs_Quad Proofs_Sites Proofs_Rounded Proofs_Threads")
 
 TABLE = {
     "C02": ("evaluation returns the value of the stored piecewise polynomial", """
@@ -196,6 +196,7 @@ TABLE = {
         ("C09_relative_index", "Proofs_Support.rel_from_abs_spec"),
         ("C09_absolute_index", "Proofs_Support.abs_from_rel_spec"),
         ("C09_eval_total", "Proofs_Eval.seval_total"),
+        ("C09_sites_covered", "Proofs_Sites.sites_covered"),
     ]),
     "C10": ("objects are always valid: class invariants survive every history", "", [
         ("C10_init", "Proofs_Pool.inv_init"),
@@ -221,6 +222,68 @@ TABLE = {
         ("C14_observers_change_nothing", "Proofs_Pool.observers_change_nothing"),
         ("C14_copy_independent", "Proofs_Pool.copy_independent"),
         ("C14_copy_value", "Proofs_Pool.copy_value"),
+    ]),
+    "C16": ("floating-point results stay at rounding level of the exact result", """
+   PARTIAL.  (i) The exact reference: the model at any ordered field, proved to be the mathematical
+   object by C01-C07 (instances restated here at Qc).  (ii) Standard-model rounding bounds for the
+   numerical kernels, over R: the SAME model code run with rounded operations (RndOps rnd, where
+   rnd x = x(1+d), |d| <= u) against the exact instance: Horner evaluation about the midpoint, the
+   even-power Horner scheme, the linear and bilinear interval kernels, with gamma k = (1+u)^k - 1,
+   and the discharge of the rounding hypothesis for round-to-nearest-even with 53 bits (Flocq).
+   These theorems depend on the standard library's real-number axioms and, through Flocq, on
+   classical logic (printed below).  NOT proved: the bound for composite computations (B-spline
+   generation through several recursion levels, operator chains) - validated by the check.""", [
+        ("C16_horner", "Proofs_Rounded.horner_rounded_bound"),
+        ("C16_horner_2n_bound_is_false", "Proofs_Rounded.horner_2n_bound_fails"),
+        ("C16_even_horner", "Proofs_Rounded.even_horner_rounded_bound"),
+        ("C16_linear_kernel", "Proofs_Rounded.lin_kernel_rounded_bound"),
+        ("C16_bilinear_kernel", "Proofs_Rounded.bi_kernel_rounded_bound"),
+        ("C16_gamma_small", "Proofs_Rounded.gamma_small"),
+        ("C16_binary64_rounding_model", "Proofs_Rounded.flx_rnd_spec"),
+        ("C16_binary64_small_integers_exact", "Proofs_Rounded.flx_rnd_int"),
+        ("C16_horner_binary64", "Proofs_Rounded.horner_rounded_bound_binary64_eps"),
+        ("C16_linear_kernel_binary64", "Proofs_Rounded.lin_kernel_rounded_bound_binary64"),
+        ("C16_bilinear_kernel_binary64", "Proofs_Rounded.bi_kernel_rounded_bound_binary64"),
+        ("C16_rounded_model_is_the_model", "Proofs_Rounded.RndOps_id"),
+        ("C16_exact_reference_generator", "(@Proofs_Gen.gen_is_cox_de_boor Qcanon.Qc QcOps Qc_laws)"),
+        ("C16_exact_reference_forms", "(@Proofs_Forms2.bilinear_exact Qcanon.Qc QcOps Qc_laws)"),
+    ]),
+    "C18": ("concurrent read-only use is race-free and deterministic", """
+   PARTIAL: the operation-level theorem.  Threads own disjoint sets of slots and may read shared
+   slots that nobody writes (the C++ const discipline, op_allowed).  Under EVERY interleaving of
+   whole operations each thread obtains exactly the results, and leaves its own objects in exactly
+   the state, of running its operation list alone; shared objects never change.  The step from
+   operation-level atomicity to real interleavings is data-race freedom of the shared locations:
+   the inventory of such locations is regenerated from the headers on every run and must be fully
+   classified (C18_shared_inventory_safe).  Races inside one operation cannot be exhibited by the
+   model; ThreadSanitizer runs look for them.""", [
+        ("C18_interleave_deterministic", "Proofs_Threads.interleave_deterministic"),
+        ("C18_schedule_independent", "Proofs_Threads.schedule_independent"),
+        ("C18_schedule_independent_state", "Proofs_Threads.schedule_independent_state"),
+        ("C18_shared_never_change", "Proofs_Threads.shared_never_change"),
+        ("C18_result_depends_on_reads_only", "Proofs_Threads.eval_op_reads"),
+        ("C18_only_owner_changes_owned", "Proofs_Threads.owned_only_changed_by_owner"),
+        ("C18_discipline_needed", "Proofs_Threads.thr_discipline_needed"),
+        ("C18_shared_inventory_safe", "Proofs_Sites.shared_inventory_safe"),
+    ]),
+    "C19": ("the scalar type needs only the documented operations", """
+   The model's sections have exactly the documented operations as their interface (class Ops in
+   Scalar.v: 0, 1, + - * /, unary minus, six comparisons; integers enter through fofZ, i.e.
+   static_cast<T>(int)), so Coq's type checker guarantees that no definition uses anything else, and
+   every theorem of C01-C07, C12 is quantified over ALL scalar structures satisfying the ordered-field
+   laws.  Restated here: the laws are satisfiable (Qc), and at that exact field the results are exact.
+   The C++ side (compile-as-check with the archetype scalars) is the correspondence run.""", [
+        ("C19_laws_satisfiable", "(Instances.Qc_laws)"),
+        ("C19_generator_any_scalar", "Proofs_Gen.gen_is_cox_de_boor"),
+        ("C19_arithmetic_any_scalar", "Proofs_Spline.spl_mul_spec"),
+        ("C19_operators_any_scalar", "Proofs_Ops.apply_spec"),
+        ("C19_forms_any_scalar", "Proofs_Forms2.bilinear_exact"),
+        ("C19_interpolation_any_scalar", "Proofs_Interp.interp_spec"),
+        ("C19_generator_exact_at_Qc", "(@Proofs_Gen.gen_is_cox_de_boor Qcanon.Qc QcOps Qc_laws)"),
+        ("C19_arithmetic_exact_at_Qc", "(@Proofs_Spline.spl_mul_spec Qcanon.Qc QcOps Qc_laws)"),
+        ("C19_operators_exact_at_Qc", "(@Proofs_Ops.apply_spec Qcanon.Qc QcOps Qc_laws)"),
+        ("C19_forms_exact_at_Qc", "(@Proofs_Forms2.bilinear_exact Qcanon.Qc QcOps Qc_laws)"),
+        ("C19_interpolation_exact_at_Qc", "(@Proofs_Interp.interp_spec Qcanon.Qc QcOps Qc_laws)"),
     ]),
     "C17": ("numerical quadrature matches the analytic forms where Gauss-Legendre is exact", """
    Relative to the rule: `rule` is any function satisfying rule_ext (depends only on the values
@@ -282,13 +345,13 @@ TABLE = {
 }
 
 
-def coq_types(names):
+def coq_types(names, implicit=False):
     src = ["From Coq Require Import List NArith ZArith Arith Bool.",
            f"From BSpl Require Import {IMPORTS}.", "Import ListNotations.", "Set Printing Width 110.",
-           "Set Printing Depth 1000."]
+           "Set Printing Depth 1000."] + (["Set Printing Implicit."] if implicit else [])
     for n in names:
         src.append('Goal True. idtac "=====MARK". Abort.')
-        src.append(f'Check @{n}.')
+        src.append(f'Check {n}.' if n.startswith('(') else f'Check @{n}.')
     p = "/var/tmp/mkprops_q.v"
     open(p, "w").write("\n".join(src) + "\n")
     out = subprocess.run(["coqc", "-Q", COQ, "BSpl", p], stdout=subprocess.PIPE, stderr=subprocess.STDOUT, text=True).stdout
@@ -307,7 +370,12 @@ def coq_types(names):
             # short type printed on the same line: "@name : type"
             name, _, rest = b.partition(":")
             ty = ":" + rest
-        assert n.endswith(name.strip()), (n, name)
+        if not n.startswith('('):
+            assert n.endswith(name.strip()), (n, name)
+        elif ty.strip() == '' or not ty.strip().startswith(':'):
+            # `Check (term).` prints "term\n : type": split at the first line that starts with ':'
+            m = re.search(r"^\s*:", b, flags=re.M)
+            ty = b[m.start():]
         types[n] = ty.strip()[1:].strip()
     return types, out
 
@@ -317,14 +385,15 @@ def main():
     for pid, (title, blurb, thms) in TABLE.items():
         if only and pid not in only:
             continue
-        types, out = coq_types([l for _, l in thms])
+        types, out = coq_types([l for _, l in thms], implicit=(pid == 'C16'))
         parts = [HEAD.format(pid=pid, title=f"{pid}: {title}.", blurb=blurb.strip("\n"), imports=IMPORTS)]
         for name, lemma in thms:
             if lemma not in types:
                 print("MISSING", lemma, out[-2000:])
                 sys.exit(1)
             ty = "\n    ".join(types[lemma].splitlines())
-            parts.append(f"Theorem {name} :\n    {ty}.\nProof. exact (@{lemma}). Qed.\n")
+            pf = lemma if lemma.startswith('(') else f"(@{lemma})"
+            parts.append(f"Theorem {name} :\n    {ty}.\nProof. exact {pf}. Qed.\n")
         parts.append("")
         for name, _ in thms:
             parts.append(f"Print Assumptions {name}.")
